@@ -147,6 +147,8 @@ type scenario struct {
 	DutyMode string              // cache | direct
 	HoldP    float64             // probability that a delay is held until a later gate
 	Probe    bool                // concurrent GetDutyDefinition prober
+	Early    bool                // early-fetch case: head events injected, clock advanced in sub-slot steps
+	WithDly  bool                // early-fetch case run with fetch_att_on_block_with_delay (fallback at 1/3 + 300ms)
 	Class    string
 }
 
@@ -413,6 +415,28 @@ func genScenario(rng *rand.Rand) *scenario {
 	return s
 }
 
+// makeEarly turns the scenario into an early-fetch case: every slot is ticked (the clock moves in
+// sub-slot steps), the start instant is at or shortly after a slot start, offset waits use timers of
+// the fake clock instead of the harness channel.
+func (s *scenario) makeEarly(rng *rand.Rand, withDelay bool) {
+	s.Early, s.WithDly = true, withDelay
+	s.Steps = nil
+	for sl := s.S0; sl <= s.EndSlot+1; sl++ {
+		s.Steps = append(s.Steps, 1)
+	}
+	s.Steps = append(s.Steps, 1, 1)
+	s.StartOff = 0
+	if rng.Intn(2) == 0 {
+		s.StartOff = s.SlotDur / 10
+	}
+	s.HoldP = 0
+	for g := range s.Reorgs {
+		if g >= len(s.Steps) {
+			delete(s.Reorgs, g)
+		}
+	}
+}
+
 func (s *scenario) mkAtt(rng *rand.Rand, v *mval, slot uint64) eth2v1.AttesterDuty {
 	commLen := uint64(1 + rng.Intn(64))
 
@@ -462,6 +486,7 @@ func (s *scenario) describe() map[string]any {
 		"start_offset_in_slot": s.StartOff.String(), "validators": vals, "bn_failures_by_slot": fails,
 		"advance_steps": s.Steps, "reorg_gates": s.Reorgs, "bn_ignores_index_filter": loose,
 		"validator_cache": s.ValMode, "duties_cache": s.DutyMode, "hold_probability": s.HoldP, "class": s.Class,
+		"early_fetch_case": s.Early, "fetch_att_on_block_with_delay": s.WithDly,
 	}
 }
 
